@@ -329,7 +329,7 @@ func init() {
 		ID:    "C22",
 		Title: "The uniform syntax-tree wrapper round-trips every node losslessly",
 		Explanation: "Decided, for each of the ~50 wrapper types over *ast.N, with the field list of ast.N taken from go/types: W2 Size() is a constant k and Get/Set accept exactly the indexes 0..k-1 (badIndex reports the same k); W3 Get(j) reads field f iff Set(j) writes f; W4 every child field (a node, a slice of nodes, a *FieldList / *BlockStmt ...) is reachable through some index and every scalar field (positions, tokens, flags) is copied by New() or assigned by a Set arm; W5 ToAst wraps *ast.N in that wrapper; W6 slice wrappers use len / X[i]. " +
-			"Together these imply that rebuilding any tree through New + Set(i, Get(i)) preserves every field the rule covers. Fields the forked parser never fills are frozen exceptions. Not decided: structural equality of a specific tree (implied for all trees by the clauses above).",
+			"Together these imply that rebuilding any tree through New + Set(i, Get(i)) preserves every field the rule covers. W6 Node() and Interface() of every wrapper return the wrapped node itself (nil when it is nil), never one of its children. Fields the forked parser never fills are frozen exceptions. Not decided: structural equality of a specific tree (implied for all trees by the clauses above).",
 		Assumptions: []string{"field lists of go/ast as type-checked by the installed toolchain"},
 		Rules:       []func(*Ctx){ruleAstWrappers, func(c *Ctx) { c.Floor("W3-get-set", 60); c.Floor("W4-field-coverage", 70); c.Floor("W5-toast", 40) }},
 		Mutants: []Mutant{
@@ -339,6 +339,7 @@ func init() {
 			{Name: "gendecl-new-drops-tok", File: "ast2/ast_slice.go", Old: "TokPos: x.X.TokPos, Tok: x.X.Tok, Lparen", New: "TokPos: x.X.TokPos, Lparen"},
 			{Name: "get-skips-child", File: "ast2/ast_node.go", Old: "return ToAst3(i, x.X.Init, x.X.Tag, x.X.Body)", New: "return ToAst3(i, x.X.Init, x.X.Init, x.X.Body)"},
 			{Name: "size-too-small", File: "ast2/ast_node.go", Old: "func (x SliceExpr) Size() int      { return 4 }", New: "func (x SliceExpr) Size() int      { return 3 }"},
+			{Name: "node-returns-child", File: "ast2/ast_node.go", Old: "func (x ParenExpr) Node() ast.Node      { return asNode(x.X, x.X == nil) }", New: "func (x ParenExpr) Node() ast.Node      { return asNode(x.X.X, x.X == nil) }"},
 			{Name: "toast-wrong-wrapper", File: "ast2/wrap.go", Old: "\t\tx = BadStmt{node}", New: "\t\tx = EmptyStmt{&ast.EmptyStmt{}}"},
 		},
 	})
@@ -600,17 +601,20 @@ func init() {
 		ID:    "C20",
 		Title: "Macro expansion rewrites exactly the macro calls and leaves other code unchanged",
 		Explanation: "Decided, for both interpreters (fast and classic): K1 a node that is not a macro call is rebuilt as in.New() with child i of the output set unconditionally from child i of the input for every i < in.Size() (losslessness of that rebuild is C22's field coverage, run here too); macro calls are expanded only at quasiquote depth <= 0; the depth table QUASIQUOTE +1, UNQUOTE / UNQUOTE_SPLICE -1, QUOTE returns the node unexpanded at depth 0 is as documented and identical in both interpreters; " +
-			"in MacroExpand1 an element that is not a macro call is appended unchanged, a macro with argNum arguments receives elements i+1..i+argNum in order and exactly those are consumed, results are appended in order; MacroExpand repeats until nothing expands; K2 UnwrapTrivialAst removes only ParenExpr, ExprStmt, DeclStmt wrappers and one-element blocks. " +
+			"in MacroExpand1 an element that is not a macro call is appended unchanged, a macro with argNum arguments receives elements i+1..i+argNum in order and exactly those are consumed, results are appended in order, and i += argNum is the only write to the scan index inside the loop; MacroExpand repeats until nothing expands; K3 the flag a walk returns accumulates over the children (inside a loop it is only set to true or or-ed with itself), because a quoted form is rebuilt only when the walk of its body reports an expansion; K2 UnwrapTrivialAst removes only ParenExpr, ExprStmt, DeclStmt wrappers and one-element blocks. " +
 			"Not decided: what a user macro returns.",
 		Assumptions: []string{"ast2 wrappers are lossless (C22)"},
 		Rules: []func(*Ctx){func(c *Ctx) {
 			ruleMacroCodewalk(c, "K1-macro-codewalk")
+			ruleMonotoneFlag(c, "K3-flag-accumulates", "fast.Comp.macroExpandCodewalk", "classic.Env.macroExpandAstCodewalk", "fast.Comp.MacroExpand1", "classic.Env.macroExpandAstOnce")
 			ruleUnwrapTrivial(c, "K2-unwrap-trivial")
 			ruleAstWrappers(c)
 			c.Floor("K1-macro-codewalk", 20)
 		}},
 		Mutants: []Mutant{
 			{Name: "unquote-does-not-lower-depth", File: "fast/macroexpand.go", Old: "\t\t\tquasiquoteDepth--\n", New: "\t\t\tquasiquoteDepth++\n", Canary: true},
+			{Name: "expand1-inner-loop-reuses-scan-index", File: "fast/macroexpand.go", Old: "\t\t\t\tfor i := 0; i < n; i++ {\n\t\t\t\t\touts = outs.Append(res.Get(i))", New: "\t\t\t\tfor i = 0; i < n; i++ {\n\t\t\t\t\touts = outs.Append(res.Get(i))"},
+			{Name: "classic-flag-overwritten-by-last-child", File: "classic/macroexpand.go", Old: "\t\t\tif expanded {\n\t\t\t\tanythingExpanded = true\n\t\t\t}\n", New: "\t\t\tanythingExpanded = expanded\n"},
 			{Name: "rebuild-skips-unexpanded-child", File: "fast/macroexpand.go", Old: "\t\t\tif expanded {\n\t\t\t\tanythingExpanded = true\n\t\t\t}\n\t\t}\n\t\tout.Set(i, child)\n", New: "\t\t\tif expanded {\n\t\t\t\tanythingExpanded = true\n\t\t\t\tout.Set(i, child)\n\t\t\t}\n\t\t}\n", Canary: true},
 			{Name: "macro-args-off-by-one", File: "fast/macroexpand.go", Old: "args[j] = xr.ValueOf(ToNode(ins.Get(i + j + 1)))", New: "args[j] = xr.ValueOf(ToNode(ins.Get(i + j)))"},
 			{Name: "macro-consumes-one-less", File: "fast/macroexpand.go", Old: "\t\ti += argn\n", New: "\t\ti += argn - 1\n"},
@@ -686,6 +690,7 @@ func init() {
 		Rules: []func(*Ctx){func(c *Ctx) {
 			ruleTokenArmOperators(c, "classic", nil, "A5-classic-operator")
 			ruleMacroCodewalk(c, "K1-macro-codewalk")
+			ruleMonotoneFlag(c, "K3-flag-accumulates", "fast.Comp.macroExpandCodewalk", "classic.Env.macroExpandAstCodewalk", "fast.Comp.MacroExpand1", "classic.Env.macroExpandAstOnce")
 		}},
 		Mutants: []Mutant{
 			{Name: "classic-int-sub-is-add", File: "classic/binaryexpr.go", Old: "\tcase token.SUB, token.SUB_ASSIGN:\n\t\tret = x - y\n", New: "\tcase token.SUB, token.SUB_ASSIGN:\n\t\tret = x + y\n", Nth: 1, Canary: true},
